@@ -276,9 +276,9 @@ Proof.
 Qed.
 
 (* every observation that agrees with the model of Build satisfies the property predicate *)
-Theorem agree_implies_prop_C17 : forall i o, agree_C17 i o = true -> prop_C17 i o = true.
+Lemma core_implies_prop_C17 : forall i o, agree_core i o = true -> prop_C17 i o = true.
 Proof.
-  intros i o. unfold agree_C17, prop_C17, run_C17.
+  intros i o. unfold agree_core, prop_C17, run_C17.
   destruct (decode_C17 i) as [[text | x name a | x ts cs | x text]|]; try (intros _; reflexivity).
   - intro H. exact H.
   - intro H. apply val_eqb_eq in H. subst o. rewrite built_is_reject. apply val_eqb_refl.
@@ -286,10 +286,15 @@ Proof.
   - intro H. apply val_eqb_eq in H. subst o. destruct (build_text_01 x text) as [E|E]; rewrite E; reflexivity.
 Qed.
 
+Theorem agree_implies_prop_C17 : forall i o, agree_C17 i o = true -> prop_C17 i o = true.
+Proof.
+  intros i o H. unfold agree_C17 in H. apply andb_true_iff in H. apply core_implies_prop_C17. exact (proj1 H).
+Qed.
+
 (* central theorem: on every well-formed input (single call, composite, ASCII text) the model satisfies the property *)
 Theorem prop_C17_of_model : forall i, wf_C17 i = true -> kf_C17 i = 0 -> prop_C17 i (run_C17 i) = true.
 Proof.
-  intros i Hw _. apply agree_implies_prop_C17. unfold agree_C17. unfold wf_C17 in Hw. unfold run_C17.
+  intros i Hw _. apply core_implies_prop_C17. unfold agree_core. unfold wf_C17 in Hw. unfold run_C17.
   destruct (decode_C17 i) as [[text | x name a | x ts cs | x text]|]; try discriminate; apply val_eqb_refl.
 Qed.
 
@@ -579,7 +584,7 @@ Qed.
 
 (* ... and it is false of the code as it is: header value primitive on a request without the header *)
 Definition x0 : ext := {| x_ip := fun _ => None; x_re_ok := fun _ => true; x_re_match := fun _ _ => true;
-                          x_time := fun _ => None; x_tod := fun _ => None; x_hash := fun _ => 0; x_ipstr := fun _ => [] |}.
+                          x_time := fun _ => None; x_tod := fun _ => None; x_hash := fun _ => 0; x_ipstr := fun _ => []; x_now := 0 |}.
 Definition r0 : request :=
   {| r_host := []; r_hosttag := []; r_secure := false; r_sproto := []; r_hproto := []; r_method := [];
      r_tags := None; r_uri := []; r_path := []; r_query := []; r_cookies := []; r_headers := []; r_resp := None;
@@ -796,7 +801,8 @@ Proof.
   destruct (x_time x (arg_str (nth_arg args 0))) as [s|]; [|discriminate].
   destruct (x_time x (arg_str (nth_arg args 1))) as [e|]; [|discriminate].
   destruct (e <? s); [discriminate|]. inversion H; subst c. open_fetch.
-  destruct (x_time x (hget n_DebugTime (r_headers r))); reflexivity.
+  unfold current_time. destruct (aget n_DebugTime (r_headers r)) as [[|v ?]|]; try reflexivity.
+  destruct (x_time x v); reflexivity.
 Qed.
 
 Lemma o_bfe_periodic_time_range : build_call x [98;102;101;95;112;101;114;105;111;100;105;99;95;116;105;109;101;95;114;97;110;103;101] args = Some c ->
@@ -811,7 +817,8 @@ Proof.
   destruct (x_tod x (arg_str (nth_arg args 0))) as [[s o1]|]; [|discriminate].
   destruct (x_tod x (arg_str (nth_arg args 1))) as [[e o2]|]; [|discriminate].
   destruct (e <? s); [discriminate|]. destruct (negb (o1 =? o2)); [discriminate|]. inversion H; subst c. open_fetch.
-  destruct (x_time x (hget n_DebugTime (r_headers r))); reflexivity.
+  unfold current_time. destruct (aget n_DebugTime (r_headers r)) as [[|v ?]|]; try reflexivity.
+  destruct (x_time x v); reflexivity.
 Qed.
 
 Lemma o_req_header_key_in : build_call x [114;101;113;95;104;101;97;100;101;114;95;107;101;121;95;105;110] args = Some c -> kf2 [114;101;113;95;104;101;97;100;101;114;95;107;101;121;95;105;110] args r = false ->
